@@ -20,14 +20,21 @@ pub assume_specification<T>[core::mem::replace::<T>](dest: &mut T, src: T) -> (r
 pub assume_specification<T>[Option::<T>::replace](o: &mut Option<T>, value: T) -> (r: Option<T>)
     ensures r == *old(o), *final(o) == Some(value);
 // ---- byte (UTF-8) lengths and offsets of strings, in vstd's terms (vstd specifies str::len / str::is_char_boundary over encode_utf8 of the chars)
-pub open spec fn utf8_len(s: Seq<char>) -> nat { vstd::utf8::encode_utf8(s).len() }
-pub open spec fn utf8_boundary(s: Seq<char>, n: int) -> bool { vstd::utf8::is_char_boundary(vstd::utf8::encode_utf8(s), n) }
-/// the chars encoded in the first n bytes (n a character boundary)
-pub uninterp spec fn utf8_prefix(s: Seq<char>, n: int) -> Seq<char>;
-/// assumed (true of every UTF-8 string): offset 0 and the end are character boundaries
-#[verifier::external_body]
-pub proof fn axiom_utf8_ends_are_boundaries(s: Seq<char>)
-    ensures utf8_boundary(s, 0), utf8_boundary(s, utf8_len(s) as int) {}
+pub mod utf8 {
+    use vstd::prelude::*;
+    pub open spec fn utf8_len(s: Seq<char>) -> nat { vstd::utf8::encode_utf8(s).len() }
+    pub open spec fn utf8_boundary(s: Seq<char>, n: int) -> bool { vstd::utf8::is_char_boundary(vstd::utf8::encode_utf8(s), n) }
+    /// the chars encoded in the first n bytes (n a character boundary)
+    pub uninterp spec fn utf8_prefix(s: Seq<char>, n: int) -> Seq<char>;
+    pub mod utf8_axioms {
+        use vstd::prelude::*;
+        use super::{utf8_boundary, utf8_len};
+        /// assumed (Rust's definition of str::is_char_boundary): offset 0 and the end of the string are character boundaries
+        pub broadcast axiom fn axiom_utf8_start_is_a_boundary(b: Seq<u8>) ensures #[trigger] vstd::utf8::is_char_boundary(b, 0);
+        pub broadcast axiom fn axiom_utf8_end_is_a_boundary(b: Seq<u8>) ensures #[trigger] vstd::utf8::is_char_boundary(b, b.len() as int);
+    }
+}
+pub use utf8::{utf8_len, utf8_boundary, utf8_prefix, utf8_axioms};
 pub assume_specification[String::len](s: &String) -> (r: usize)
     ensures r == utf8_len(s@);
 /// String::truncate panics when new_len is inside the string and not on a character boundary
